@@ -330,23 +330,19 @@ def insKey (kid : KeyId) (s : SeriesId) (v : ValId) : FwdFile → FwdFile
 def buildFwdFile (p : FwdPart) : FwdFile :=
   p.foldl (fun f e => insKey e.1 e.2.1 e.2.2 f) []
 
-/-- `lut[index]` of `NewTagForwardReader` for the container cardinalities `cards` -/
-def lutOffset (cum : Bool) (cards : List Nat) (index : Nat) : Nat :=
-  if cum then (cards.take index).sum
-  else match index with
-    | 0 => 0
-    | i + 1 => cards.getD i 0
+/-- walk of `NewTagForwardReader`'s lookup table together with `GetContainerIndex(highKey)`:
+`off` is `lut[index]` of the container at the head: `lut[0] = 0` and `lut[idx+1] = lut[idx] + card`
+(cumulative) resp. `lut[idx+1] = card` (the source as extracted). The container's low keys are
+zipped with `buf[lut[index]*4 : (lut[index]+card)*4]`. -/
+def readFrom (cum : Bool) (allVals : List ValId) (high : Nat) : Nat → List Container → Option (List (Nat × ValId))
+  | _, [] => none
+  | off, c :: t =>
+    if c.1 == high then some ((c.2.map (·.1)).zip ((allVals.drop off).take c.2.length))
+    else readFrom cum allVals high (if cum then off + c.2.length else c.2.length) t
 
-/-- `tagForwardReader.GetSeriesAndTagValue(highKey)`: the container's low keys zipped with
-`buf[lut[index]*4 : (lut[index]+card)*4]` -/
+/-- `tagForwardReader.GetSeriesAndTagValue(highKey)` -/
 def readContainer (cum : Bool) (cs : List Container) (high : Nat) : Option (List (Nat × ValId)) :=
-  match cs.findIdx? (fun c => c.1 == high) with
-  | none => none
-  | some i =>
-    let c := cs.getD i (high, [])
-    let allVals := cs.flatMap (fun c => c.2.map (·.2))
-    let off := lutOffset cum (cs.map (fun c => c.2.length)) i
-    some ((c.2.map (·.1)).zip ((allVals.drop off).take c.2.length))
+  readFrom cum (cs.flatMap (fun c => c.2.map (·.2))) high 0 cs
 
 /-- everything a `tagForwardScanner` yields for one file entry (used by the merger) -/
 def readAllContainers (cum : Bool) (cs : List Container) : List (SeriesId × ValId) :=
